@@ -172,6 +172,15 @@ let handle toks =
              (join (List.map int_of_z (sub_run_spec start_of data)))
              (join (List.map int_of_z (chained_spec start_of data)))
        | _ -> "BAD")
+  | "history" :: rest ->
+      (* ops: 0 k r1..rk = define_run(data) | 1 w = get/make with write_superruns = w ; output: is_stored after each *)
+      let rec parse l = match l with
+        | [] -> []
+        | 0 :: k :: r -> HDefine (List.map z_of_int (take k r)) :: parse (drop k r)
+        | 1 :: w :: r -> HGet (w <> 0) :: parse r
+        | _ -> failwith "history" in
+      let ops = parse (ints rest) in
+      join (List.map (fun b -> if b then 1 else 0) (h_trace { h_spec = []; h_made = [] } ops))
   | "canon" :: rest ->
       (match ints rest with
        | comb :: n :: r ->
